@@ -632,3 +632,13 @@ Proof.
   intro u. unfold basic_ok. destruct (String.prefix _ _); [|reflexivity].
   destruct (o_b64std o _); [|reflexivity]. destruct (parse_credentials q s) as [[a b]|]; reflexivity.
 Qed.
+
+(** * which body hash enters the canonical request during verification: a function of the
+      buffered payload (or the excludeBody marker) only - never of any header of the request *)
+Lemma body_hash_of_payload q o c r r' :
+  r_payload r = r_payload r' -> body_hash q o c r = body_hash q o c r'.
+Proof. intro E. unfold body_hash, body_seen. rewrite E. reflexivity. Qed.
+
+Lemma body_hash_ideal o c r :
+  body_hash ideal o c r = if s_exclude_body c then "UNSIGNED-PAYLOAD" else o_sha o (r_payload r).
+Proof. reflexivity. Qed.
